@@ -62,6 +62,11 @@ func genC01(c *Ctx) {
 	add("corpus:jwt-null", "t", []byte("bnVsbA.bnVsbA."))
 	add("corpus:uuid-braces", "u", []byte("x1EC9414C-232A-6B00-B3C8-9E6BDECED846y"))
 	c01Corpus(add)
+	// known finding C01-jceks-nesting: 5000 class descriptions nested in class annotations (75 kB) make the
+	// third-party Java deserializer build error texts of quadratic total size (gigabytes; 10000 levels: 17 GiB and
+	// 14 s); run in the isolated worker only, whose watchdog ends it, never through the CLI
+	noCLI := map[int]bool{len(cases): true}
+	add("corpus:jceks-nesting:java", "k.jceks", c01JCE(c01JavaNest(5000)))
 
 	// deep nesting: recursion depth must be bounded for every wrapping construct (a goroutine stack
 	// overflow is a fatal error, not a recoverable panic): 2.5 million levels, 10-15 MB each
@@ -200,6 +205,9 @@ func genC01(c *Ctx) {
 	os.MkdirAll(dir, 0o755)
 	for k := 0; k < ncli && k < nMut; k++ {
 		idx := (k * 7919) % nMut
+		if noCLI[idx] {
+			continue
+		}
 		p := filepath.Join(dir, fmt.Sprintf("f%d", k))
 		os.WriteFile(p, cases[idx].Data, 0o644)
 		out, code := runCLI(c, p)
